@@ -331,6 +331,14 @@ func registerFS(e *Engine) {
 			p[n] = z
 			n++
 		}
+		// except where the harness patched bytes in
+		for at, b := range h.node.patches {
+			for i, v := range b {
+				if k := at + i - off; k >= 0 && k < n {
+					p[k] = v
+				}
+			}
+		}
 		return n, iface{}
 	}
 	e.reg("(*os.File).Read", func(ex *Exec, fr *frame, args []Value) Value {
